@@ -379,8 +379,62 @@ impl Mat {
                 ironwood_commitment_tree_size: sz["I"].as_u64().unwrap() as u32,
             });
         }
+        // header-level fields that cannot be parsed
+        match ab.get("bad").and_then(|v| v.as_str()).unwrap_or("none") {
+            "txid_len" => {
+                if let Some(tx) = cb.vtx.first_mut() {
+                    if self.rng.gen_range(0..2) == 0 { tx.txid.truncate(31) } else { tx.txid.push(9) }
+                }
+            }
+            "hash_len" => {
+                if self.rng.gen_range(0..2) == 0 { cb.hash.truncate(31) } else { cb.hash.push(9) }
+            }
+            "prev_len" => {
+                if self.rng.gen_range(0..2) == 0 { cb.prev_hash.truncate(31) } else { cb.prev_hash.push(9) }
+            }
+            "height_big" => cb.height += 1u64 << 32,
+            "txindex_big" => {
+                if let Some(tx) = cb.vtx.last_mut() {
+                    tx.index += 1u64 << 16;
+                }
+            }
+            _ => {}
+        }
         MatBlock { cb, txs, height, hash }
     }
+}
+
+/// Panics on blocks with a header-level malformation are collected apart from the mismatches: the
+/// check decides (known_findings.json) whether they are excused.
+#[derive(Default)]
+struct HeaderPanics(BTreeMap<String, (u64, Vec<String>, Value)>);
+impl HeaderPanics {
+    fn add(&mut self, kind: &str, msg: &str, input: &Value) {
+        let e = self.0.entry(kind.to_string()).or_insert_with(|| (0, vec![], input.clone()));
+        e.0 += 1;
+        let m: String = msg.chars().take(160).collect();
+        if !e.1.contains(&m) && e.1.len() < 6 {
+            e.1.push(m);
+        }
+    }
+    fn merge(&mut self, other: HeaderPanics) {
+        for (k, (n, msgs, ex)) in other.0 {
+            let e = self.0.entry(k).or_insert_with(|| (0, vec![], ex));
+            e.0 += n;
+            for m in msgs {
+                if !e.1.contains(&m) && e.1.len() < 6 {
+                    e.1.push(m);
+                }
+            }
+        }
+    }
+    fn json(&self) -> Value {
+        Value::Object(self.0.iter().map(|(k, (n, msgs, ex))| (k.clone(), json!({"count": n, "messages": msgs, "example": ex}))).collect())
+    }
+}
+
+fn bad_kind(ab: &Value) -> Option<&str> {
+    ab.get("bad").and_then(|v| v.as_str()).filter(|s| *s != "none")
 }
 
 /// Predicted positions of the received outputs of a block result.
@@ -635,6 +689,10 @@ fn diff_block(exp: &Value, got: &Value, mb: &MatBlock, why: &mut Vec<String>) {
 /// Compares an error outcome. Returns (mismatch?, order_differs?).
 fn diff_error(exp: &Value, class: &str, why: &mut Vec<String>) -> bool {
     let all: Vec<&str> = exp["all"].as_array().unwrap().iter().map(|v| v.as_str().unwrap()).collect();
+    // a header-level malformation: any error class is acceptable
+    if all.contains(&"MalformedHeader") {
+        return false;
+    }
     if !all.contains(&class) {
         why.push(format!("rejected with {class}, but the block's defects are {:?}", all));
         return false;
@@ -693,7 +751,8 @@ fn scanning_keys(accounts: &[(Keys, zcash_keys::keys::UnifiedFullViewingKey)], l
 }
 
 /// Runs the cases with index = `part` (mod `parts`); returns (cases run, mismatches, stats).
-fn block_worker(cases: &[Value], part: usize, parts: usize, seed: u64) -> (u64, Vec<Value>, BTreeMap<String, u64>) {
+fn block_worker(cases: &[Value], part: usize, parts: usize, seed: u64) -> (u64, Vec<Value>, BTreeMap<String, u64>, HeaderPanics) {
+    let mut hp = HeaderPanics::default();
     let net = era_network();
     let mut accounts = vec![];
     for a in 0..2u32 {
@@ -746,7 +805,7 @@ fn block_worker(cases: &[Value], part: usize, parts: usize, seed: u64) -> (u64, 
         mismatches.push(json!({"case": -1, "kind": "setup", "input": setup, "got": {}, "why": [format!(
             "scanning a block with one plain output per pool and account and feeding it to Nullifiers::update_with did not yield exactly those six (account, nullifier) pairs: {}",
             match &setup_res { Ok(Ok(_)) => "wrong set".to_string(), Ok(Err(e)) => format!("{e:?}"), Err(p) => format!("panic: {p}") })]}));
-        return (0, mismatches, stats);
+        return (0, mismatches, stats, hp);
     }
 
     let era_base = [50_000u32, 150_000, 250_000, 350_000];
@@ -795,8 +854,11 @@ fn block_worker(cases: &[Value], part: usize, parts: usize, seed: u64) -> (u64, 
         match &res {
             Err(p) => {
                 got = json!({"panic": p.chars().take(200).collect::<String>()});
-                why.push(format!("scan_block panicked: {}", p.chars().take(200).collect::<String>()));
                 bump("panic", &mut stats);
+                match bad_kind(ab) {
+                    Some(kind) if exp["ok"].as_bool() != Some(true) => hp.add(kind, p, case),
+                    _ => why.push(format!("scan_block panicked: {}", p.chars().take(200).collect::<String>())),
+                }
             }
             Ok(Err(e)) => {
                 let class = err_class(e);
@@ -832,7 +894,7 @@ fn block_worker(cases: &[Value], part: usize, parts: usize, seed: u64) -> (u64, 
             bump("more_mismatches", &mut stats);
         }
     }
-    (n, mismatches, stats)
+    (n, mismatches, stats, hp)
 }
 
 fn mode_block(cases_path: &str, out_path: &str) {
@@ -847,8 +909,10 @@ fn mode_block(cases_path: &str, out_path: &str) {
     let mut n = 0u64;
     let mut mismatches: Vec<Value> = vec![];
     let mut stats: BTreeMap<String, u64> = BTreeMap::new();
+    let mut hp = HeaderPanics::default();
     for h in handles {
-        let (k, mm, st) = h.join().expect("harness: worker thread");
+        let (k, mm, st, hp1) = h.join().expect("harness: worker thread");
+        hp.merge(hp1);
         n += k;
         mismatches.extend(mm);
         for (key, v) in st {
@@ -857,7 +921,7 @@ fn mode_block(cases_path: &str, out_path: &str) {
     }
     mismatches.sort_by_key(|m| m["case"].as_i64().unwrap_or(-1));
     mismatches.truncate(25);
-    let out = json!({"mode": "block", "cases": n, "mismatches": mismatches, "stats": stats});
+    let out = json!({"mode": "block", "cases": n, "mismatches": mismatches, "stats": stats, "header_panics": hp.json()});
     std::fs::write(out_path, serde_json::to_string(&out).unwrap()).expect("write out");
     println!("{}", json!({"cases": n, "mismatches": out["mismatches"].as_array().unwrap().len(), "stats": out["stats"]}));
 }
@@ -1021,6 +1085,7 @@ fn mode_wallet(scen_path: &str, out_path: &str) {
     }
 
     let mut done = 0u64;
+    let mut hp = HeaderPanics::default();
     for sc in &scenarios {
         let exp = &sc["exp"];
         let blocks = sc["blocks"].as_array().unwrap();
@@ -1080,8 +1145,11 @@ fn mode_wallet(scen_path: &str, out_path: &str) {
         match &res {
             Err(p) => {
                 got = json!({"panic": p.chars().take(200).collect::<String>()});
-                why.push(format!("scan_cached_blocks panicked: {}", p.chars().take(200).collect::<String>()));
                 bump("panic", &mut stats);
+                match blocks.iter().filter_map(bad_kind).next() {
+                    Some(kind) if exp["ok"].as_bool() != Some(true) => hp.add(kind, p, sc),
+                    _ => why.push(format!("scan_cached_blocks panicked: {}", p.chars().take(200).collect::<String>())),
+                }
             }
             Ok(Err(e)) => {
                 let class = wallet_err_class(e);
@@ -1195,7 +1263,7 @@ fn mode_wallet(scen_path: &str, out_path: &str) {
             break;
         }
     }
-    let out = json!({"mode": "wallet", "scenarios": done, "mismatches": mismatches, "stats": stats});
+    let out = json!({"mode": "wallet", "scenarios": done, "mismatches": mismatches, "stats": stats, "header_panics": hp.json()});
     std::fs::write(out_path, serde_json::to_string(&out).unwrap()).expect("write out");
     println!("{}", json!({"scenarios": done, "mismatches": out["mismatches"].as_array().unwrap().len(), "stats": out["stats"]}));
 }
